@@ -103,7 +103,9 @@ def run(prop, obligations, tier, scratch, log):
                        "smt_assertions": r["assertions"], "z3": r["z3"], "z3_s": r["z3_s"], "cvc5": r.get("cvc5"),
                        "cvc5_s": r.get("cvc5_s"), "solver_s": r["z3_s"] + (r.get("cvc5_s") or 0),
                        "states": r["assertions"], "transitions": r["violation_disjuncts"], "source_digest": dig,
+                       "glue_facts": [{"fact": g[0], "verdict": g[1], "solver_s": round(g[2], 3)} for g in getattr(a, "glue", [])],
                        "assumptions": ["engine M: callee effects are atomic events; data values are havoc; unwind (panic) edges excluded",
+                                       "engine M glue: calls / field reads in integer slices are pure (free variables named by callee + arguments)",
                                        "engine M: `ok:X` = the Continue edge of the `?` applied to X's result"]}
                 if r["verdict"] == "refuted":
                     rdir = os.path.join(VERIF, "replays", prop)
